@@ -125,6 +125,18 @@ given exactly once (defaults are not known to the translator), the receiver is e
 written; the receiver enters the callee as its fields (a translated callee) or whole (`fields` None: a helper that is a
 parameter of the translation).  `records_import=` makes a record type an abbreviation of the callee's record type.
 
+Text formats.  `sorted(set(s))` / `sorted(list(set(s)))` on a str `s` is translated AS A WHOLE (`set` alone has no
+order): the distinct characters of `s` in increasing code-point order (`Generated.Py.pySortedSet`), a str to loop over.
+A character (loop variable over a str) used as the key of a str-keyed dict is the one-character str.  An `if` whose
+else-branch always leaves (`return` / `raise` on every path) while its body does not: the statements after the `if`
+continue the body.
+
+Pages.  A function-level `from M import N` is skipped when configured (`local_imports=`).  `x = S.join(E for …)` /
+`return S.join(E for …)` (the whole right-hand side, S a constant): the items are produced first, in order, then joined.
+`for a, b in zip(xs, ys)` runs over the pairs of the common prefix; with `strict=True` a `ValueError` follows the last
+pair when the lengths differ (that is when `zip` finds one argument exhausted and the other not).  `x == v` / `x != v`
+for `x : T | None` and `v : T`: `None` equals no `T`.
+
 `isinstance(x, list)` is decided statically: `x : List _` is a Python `list` → True; an int, bool, str, `None`, or a
 record object is not → False.  An `if` (or `if not`) on such a test is translated as its live branch only — the other
 branch is dead for every input of the declared type and need not be typeable.  A union-typed input (`rtf_column_header`:
@@ -199,6 +211,14 @@ _TEXT_FIELDS = [("text", "Str"), ("font", "Int"), ("size", "Rat"), ("format", "O
 _PY_ANN = {"Str": "<class 'str'>", "Int": "<class 'int'>", "Rat": "<class 'float'>", "Bool": "<class 'bool'>",
            "Option Str": "str | None"}
 _TEXT_CLASS = ("rtflite.row", "TextContent", {f: _PY_ANN[t] for f, t in _TEXT_FIELDS})
+
+# `RTFPage` declares width, height, margin as optional; its `__init__` fills them in (`_set_default`), and the page
+# encoders are translated for such a page: a float width / height and a sequence of float margins
+_PAGE_CLASS = ("rtflite.input", "RTFPage", {"width": "float | None", "height": "float | None",
+                                            "margin": "collections.abc.Sequence[float] | None",
+                                            "orientation": "str | None"})
+_PAGE_DOMAIN = ("DOMAIN: `page_config` is a page after `RTFPage.__init__` (`_set_default` has replaced a `None` width,\n"
+                "height or margin): `width`, `height` floats (EXACT rationals here), `margin` a sequence of floats.")
 
 TARGETS = [
     dict(
@@ -422,6 +442,142 @@ TARGETS = [
         imports=["Generated.PyCellAsRtf"], depends=["CellAsRtf"],
         alias={}, outputs={}, returns={}, ret_type="List Str",
     ),
+    dict(
+        name="ParagraphFormatting", file="row.py", cls="TextContent", func="_get_paragraph_formatting", raises=True,
+        doc="TextContent._get_paragraph_formatting: the paragraph control words of one text — `\\hyphpar` /\n"
+            "`\\hyphpar0`, `\\sbN`, `\\saN`, `\\slN\\slmult1` when `space != 1` (N = `int(space * LINE_SPACING_FACTOR)`),\n"
+            "`\\fiN` `\\liN` `\\riN` (N = `Utils._inch_to_twip(indent / TWIPS_PER_INCH)`: true division of an int by the\n"
+            "class constant, an EXACT rational here — the float caveat of DESIGN §6), the justification code\n"
+            "(`ValueError` for an unknown justification).  Parameters for the surroundings: `inch_to_twip`,\n"
+            "`text_justification_codes` / `text_justification_keys` (the dict `TEXT_JUSTIFICATION_CODES` as a lookup and\n"
+            "its keys, read only by the message of the `ValueError`).  The two class constants are read off\n"
+            "`rtflite.core.constants.RTFConstants` when this file is generated and appear as literals.",
+        records={}, classes=[_TEXT_CLASS],
+        fn_params=[("inch_to_twip", "Rat → Int"),
+                   ("text_justification_codes", "List Nat → Option (List Nat)"),
+                   ("text_justification_keys", "List (List Nat)")],
+        params=[("hyphenation", "Bool"), ("space_before", "Int"), ("space_after", "Int"), ("space", "Int"),
+                ("indent_first", "Int"), ("indent_left", "Int"), ("indent_right", "Int"), ("justification", "Str")],
+        skip_params=["self"],
+        env={"self." + f: (f, t) for f, t in _TEXT_FIELDS
+             if f in ("hyphenation", "space_before", "space_after", "space", "indent_first", "indent_left",
+                      "indent_right", "justification")},
+        consts={"RTFConstants.LINE_SPACING_FACTOR": ("rtflite.core.constants", "RTFConstants", "LINE_SPACING_FACTOR"),
+                "RTFConstants.TWIPS_PER_INCH": ("rtflite.core.constants", "RTFConstants", "TWIPS_PER_INCH")},
+        dicts={"TEXT_JUSTIFICATION_CODES": ("text_justification_codes", "Str", "Str")},
+        dict_keys={"TEXT_JUSTIFICATION_CODES": "text_justification_keys"},
+        calls={"Utils._inch_to_twip": ("inch_to_twip", ["Rat"], "Int")},
+        alias={}, outputs={}, returns={}, ret_type="Str",
+    ),
+    dict(
+        name="TextFormatting", file="row.py", cls="TextContent", func="_get_text_formatting", raises=True,
+        doc="TextContent._get_text_formatting: `\\fsN` (N = `RTFMeasurements.point_to_halfpoint(size)`), the OPENING of\n"
+            "the text group `{\\fK` (K = `int(font - 1)`), `\\cfC` when a colour is set (a non-empty str), the three\n"
+            "background words when a background colour is set, and the code of every DISTINCT format character in\n"
+            "increasing code-point order (`sorted(list(set(self.format)))`; `ValueError` for a character without a\n"
+            "code).  Parameters for the surroundings: `point_to_halfpoint`, `get_color_index`\n"
+            "(`Utils._get_color_index`), `format_codes` / `format_keys` (the dict `FORMAT_CODES`).",
+        records={}, classes=[_TEXT_CLASS],
+        fn_params=[("point_to_halfpoint", "Rat → Int"), ("get_color_index", "List Nat → Except Exc Int"),
+                   ("format_codes", "List Nat → Option (List Nat)"), ("format_keys", "List (List Nat)")],
+        params=[("size", "Rat"), ("font", "Int"), ("color", "Option Str"), ("background_color", "Option Str"),
+                ("format", "Option Str")],
+        skip_params=["self"],
+        env={"self." + f: (f, t) for f, t in _TEXT_FIELDS
+             if f in ("size", "font", "color", "background_color", "format")},
+        dicts={"FORMAT_CODES": ("format_codes", "Str", "Str")}, dict_keys={"FORMAT_CODES": "format_keys"},
+        calls={"RTFMeasurements.point_to_halfpoint": ("point_to_halfpoint", ["Rat"], "Int"),
+               "Utils._get_color_index": ("get_color_index", ["Str"], "Int", True)},
+        alias={}, outputs={}, returns={}, ret_type="Str",
+    ),
+    dict(
+        name="TextAsRtf", file="row.py", cls="TextContent", func="_as_rtf", raises=True,
+        doc="TextContent._as_rtf: one text rendered by `method` — \"paragraph\" `{\\pard` para text-format ` ` text\n"
+            "`}\\par}`, \"cell\" `\\pard` para text-format ` ` text `}\\cell`, \"plain\" text-format ` ` text `}`,\n"
+            "\"paragraph_format\" / \"cell_format\" (paragraph formatting around the RAW `self.text`), anything else\n"
+            "`ValueError`.  `self._convert_special_chars()` is evaluated first whatever the method is; it stays a\n"
+            "parameter (`convert_special_chars`: its result on this object, or the exception it raises).\n"
+            "`self._get_paragraph_formatting()` / `self._get_text_formatting()` are the translated\n"
+            "`Generated.Py.ParagraphFormatting.run` / `Generated.Py.TextFormatting.run` on the object's fields, with\n"
+            "their parameters handed on.",
+        records={}, classes=[_TEXT_CLASS],
+        fn_params=[("inch_to_twip", "Rat → Int"),
+                   ("text_justification_codes", "List Nat → Option (List Nat)"),
+                   ("text_justification_keys", "List (List Nat)"),
+                   ("point_to_halfpoint", "Rat → Int"), ("get_color_index", "List Nat → Except Exc Int"),
+                   ("format_codes", "List Nat → Option (List Nat)"), ("format_keys", "List (List Nat)"),
+                   ("convert_special_chars", "Except Exc (List Nat)")],
+        params=[(f, t) for f, t in _TEXT_FIELDS if f != "convert"] + [("method", "Str")],
+        skip_params=["self"],
+        env={"self." + f: (f, t) for f, t in _TEXT_FIELDS if f != "convert"},
+        calls={"self._convert_special_chars": ("convert_special_chars", [], "Str", True),
+               "self._get_paragraph_formatting": (
+                   "Generated.Py.ParagraphFormatting.run inch_to_twip text_justification_codes "
+                   "text_justification_keys hyphenation space_before space_after space indent_first indent_left "
+                   "indent_right justification", [], "Str", True),
+               "self._get_text_formatting": (
+                   "Generated.Py.TextFormatting.run point_to_halfpoint get_color_index format_codes format_keys "
+                   "size font color background_color format", [], "Str", True)},
+        imports=["Generated.PyParagraphFormatting", "Generated.PyTextFormatting"],
+        depends=["ParagraphFormatting", "TextFormatting"],
+        alias={}, outputs={}, returns={}, ret_type="Str",
+    ),
+    dict(
+        name="PageMargin", file="services/encoding_service.py", cls="RTFEncodingService", func="encode_page_margin",
+        raises=True,
+        doc="RTFEncodingService.encode_page_margin: `\\marglN\\margrN\\margtN\\margbN\\headeryN\\footeryN` + newline, N the\n"
+            "twips of the six margins (`zip(…, strict=True)`: `ValueError` unless there are exactly six).\n" + _PAGE_DOMAIN,
+        records={}, classes=[_PAGE_CLASS], local_imports={"Utils": ("row", 2)},
+        fn_params=[("inch_to_twip", "Rat → Int")], params=[("margin", "List Rat")],
+        skip_params=["self", "page_config"], env={"page_config.margin": ("margin", "List Rat")},
+        calls={"Utils._inch_to_twip": ("inch_to_twip", ["Rat"], "Int")},
+        alias={}, outputs={}, returns={}, ret_type="Str",
+    ),
+    dict(
+        name="PageBreak", file="services/encoding_service.py", cls="RTFEncodingService", func="encode_page_break",
+        raises=True,
+        doc="RTFEncodingService.encode_page_break: `{\\pard\\fs2\\par}\\page{\\pard\\fs2\\par}`, newline, the paper size\n"
+            "`\\paperwN\\paperhN`, two newlines, whatever the margin encoder handed in returns, newline.  The margin\n"
+            "encoder is the parameter `page_margin_encode` (its result or exception; `generate_page_break` of\n"
+            "`services/document_service.py` passes `lambda: encode_page_margin(document.rtf_page)`).\n" + _PAGE_DOMAIN,
+        records={}, classes=[_PAGE_CLASS], local_imports={"Utils": ("row", 2)},
+        fn_params=[("inch_to_twip", "Rat → Int"), ("page_margin_encode", "Except Exc (List Nat)")],
+        params=[("width", "Rat"), ("height", "Rat")],
+        skip_params=["self", "page_config", "page_margin_encode_func"],
+        env={"page_config.width": ("width", "Rat"), "page_config.height": ("height", "Rat")},
+        calls={"Utils._inch_to_twip": ("inch_to_twip", ["Rat"], "Int"),
+               "page_margin_encode_func": ("page_margin_encode", [], "Str", True)},
+        alias={}, outputs={}, returns={}, ret_type="Str",
+    ),
+    dict(
+        name="PageSettings", file="rtf/syntax.py", cls="RTFSyntaxGenerator", func="generate_page_settings",
+        raises=True,
+        doc="RTFSyntaxGenerator.generate_page_settings: `\\paperwN\\paperhN`, `\\landscape ` for a landscape page, newline,\n"
+            "the six margin words from `margin_twips[0]` … `[5]` (`IndexError` for fewer than six margins; more are\n"
+            "ignored).  `orientation` is `str | None` as `RTFPage` declares it.",
+        records={}, local_imports={"Utils": ("row", 2)},
+        fn_params=[("inch_to_twip", "Rat → Int")],
+        params=[("width", "Rat"), ("height", "Rat"), ("margins", "List Rat"), ("orientation", "Option Str")],
+        skip_params=[], env={},
+        calls={"Utils._inch_to_twip": ("inch_to_twip", ["Rat"], "Int")},
+        alias={}, outputs={}, returns={}, ret_type="Str",
+    ),
+    dict(
+        name="EncodePageSettings", file="services/encoding_service.py", cls="RTFEncodingService",
+        func="encode_page_settings", raises=True,
+        doc="RTFEncodingService.encode_page_settings: hands width, height, margin and orientation of the page to\n"
+            "`self.syntax.generate_page_settings`, the translated `Generated.Py.PageSettings.run`.\n" + _PAGE_DOMAIN,
+        records={}, classes=[_PAGE_CLASS],
+        fn_params=[("inch_to_twip", "Rat → Int")],
+        params=[("width", "Rat"), ("height", "Rat"), ("margin", "List Rat"), ("orientation", "Option Str")],
+        skip_params=["self", "page_config"],
+        env={"page_config.width": ("width", "Rat"), "page_config.height": ("height", "Rat"),
+             "page_config.margin": ("margin", "List Rat"), "page_config.orientation": ("orientation", "Option Str")},
+        calls={"self.syntax.generate_page_settings": ("Generated.Py.PageSettings.run inch_to_twip",
+                                                      ["Rat", "Rat", "List Rat", "Option Str"], "Str", True)},
+        imports=["Generated.PyPageSettings"], depends=["PageSettings"],
+        alias={}, outputs={}, returns={}, ret_type="Str",
+    ),
     _additional_rows("AdditionalRowsFlat", "List (Option Comp)", "a flat list `[header | None, …]`"),
     _additional_rows("AdditionalRowsNested", "List (List (Option Comp))",
                      "a nested list `[[header | None, …], …]` (one Python list per section)"),
@@ -458,9 +614,9 @@ class Fn:
         self.pending: list[str] = []
         self.ntmp = 0
         for out, ty in cfg["outputs"].items():
-            self.vars["out_" + out] = f"List {ty}"
+            self.vars["out:" + out] = f"List {ty}"
         for _path, (out, kt, vt) in (cfg.get("dict_outputs") or {}).items():
-            self.vars["out_" + out] = f"List ({kt} × {vt})"
+            self.vars["out:" + out] = f"List ({kt} × {vt})"
         # a parameter the function assigns to is a local variable initialised with the argument
         pyargs = {a.arg for a in node.args.args}
         self.assigned_params = [p for p, _ in cfg["params"] if p in pyargs and p in stored_names(node.body)]
@@ -567,7 +723,7 @@ class Fn:
                     ast.unparse(e.comparators[0]) in (self.cfg.get("dicts") or {}):
                 # `k in D` / `k not in D` on a configured dict (a lookup function)
                 lean_fn, kt, _vt = self.cfg["dicts"][ast.unparse(e.comparators[0])]
-                k, tk = self.expr(e.left, defined)
+                k, tk = self.dict_key(*self.expr(e.left, defined))
                 if tk != kt:
                     raise Untranslatable(f"{src}: key of type {tk}")
                 return f"({lean_fn} {k}).{'isSome' if isinstance(e.ops[0], ast.In) else 'isNone'}", "Bool"
@@ -583,6 +739,10 @@ class Fn:
                 raise Untranslatable(f"identity test {src} on {ta}")
             b, tb = self.expr(e.comparators[0], defined)
             ta, tb = ("Int" if t == "Char" else t for t in (ta, tb))
+            if isinstance(e.ops[0], (ast.Eq, ast.NotEq)) and t_arg(ta, "Option") == tb and tb in ("Int", "Str", "Bool"):
+                # `x == v` for x : T | None and v : T — `None == v` is False (None compares equal to None only)
+                eq = f"(decide ({a} = some {b}))"
+                return (eq if isinstance(e.ops[0], ast.Eq) else f"(!{eq})"), "Bool"
             if ta != tb:
                 raise Untranslatable(f"comparison of {ta} with {tb} in {src}")
             ops = {ast.Lt: "<", ast.LtE: "≤", ast.Gt: ">", ast.GtE: "≥", ast.Eq: "=", ast.NotEq: "≠"}
@@ -677,6 +837,20 @@ class Fn:
                 if may_raise:        # a helper that may raise: bound like any raising operation
                     return self.tmp(f"{lean_fn} " + " ".join(out), src), rty
                 return f"({lean_fn} " + " ".join(out) + ")", rty
+            if isinstance(f, ast.Name) and f.id == "sorted" and len(e.args) == 1 and not e.keywords:
+                # sorted(set(E)) / sorted(list(set(E))) on a str: the DISTINCT characters in increasing code-point
+                # order (the order of a set, and of `list(set)`, is unspecified, but sorting distinct elements of a
+                # total order has one result; one-character strings compare by code point)
+                inner = e.args[0]
+                if isinstance(inner, ast.Call) and isinstance(inner.func, ast.Name) and inner.func.id == "list" and \
+                        len(inner.args) == 1 and not inner.keywords:
+                    inner = inner.args[0]
+                if isinstance(inner, ast.Call) and isinstance(inner.func, ast.Name) and inner.func.id == "set" and \
+                        len(inner.args) == 1 and not inner.keywords:
+                    a, ta = self.expr(inner.args[0], defined)
+                    if ta == "Str":
+                        return f"(Generated.Py.pySortedSet {a})", "Str"
+                raise Untranslatable(f"{src}: only sorted(set(<str>)) / sorted(list(set(<str>))) is translated")
             if isinstance(f, ast.Name) and f.id == "sorted" and len(e.args) == 1 and len(e.keywords) == 1 and \
                     e.keywords[0].arg == "key" and isinstance(e.keywords[0].value, ast.Lambda) and \
                     len(e.keywords[0].value.args.args) == 1:
@@ -775,7 +949,7 @@ class Fn:
         if isinstance(e, ast.Subscript) and ast.unparse(e.value) in (self.cfg.get("dicts") or {}):
             # D[k] on a configured dict (a function parameter `k → Option v`): KeyError when absent
             lean_fn, kt, vt = self.cfg["dicts"][ast.unparse(e.value)]
-            k, tk = self.expr(e.slice, defined)
+            k, tk = self.dict_key(*self.expr(e.slice, defined))
             if tk != kt:
                 raise Untranslatable(f"{src}: key of type {tk}")
             return self.tmp(f"Generated.Py.pyDictGet {lean_fn} {k}", src), vt
@@ -796,6 +970,11 @@ class Fn:
                 return f"{a}.{e.attr}", fields[e.attr]
             raise Untranslatable(f"attribute {e.attr} of a value of type {ta} in {src}")
         raise Untranslatable(f"expression {src}")
+
+    @staticmethod
+    def dict_key(term: str, ty: str):
+        """a character (an element of a str: a str of length one in Python) used as the key of a dict"""
+        return (f"[{term}]", "Str") if ty == "Char" else (term, ty)
 
     def const_value(self, src: str) -> int:
         """the value of a configured class constant (`consts=`: source path → (module, class, attribute)), read off
@@ -882,9 +1061,9 @@ class Fn:
         """the state-record field of a local variable: locals are alpha-renamed to `v0, v1, …` in the order of their
         first binding in the function body, so that renaming a local changes nothing in the generated definition
         (output columns keep their configured names; the original names are listed in `Py<Name>.source.txt`)"""
-        if name.startswith("out_"):
-            return name
-        return "v" + str([k for k in self.vars if not k.startswith("out_")].index(name))
+        if name.startswith("out:"):        # an output column (its key is not a Python identifier: no local can clash)
+            return "out_" + name[4:]
+        return "v" + str([k for k in self.vars if not k.startswith("out:")].index(name))
 
     def path_key(self, e):
         """`ast.unparse(e)` when `e` is a *path*: an expression whose value cannot change while the function runs
@@ -1067,6 +1246,30 @@ class Fn:
         st, rest = stmts[0], stmts[1:]
         if isinstance(st, ast.Expr) and isinstance(st.value, ast.Constant) and isinstance(st.value.value, str):
             return self.block(rest, defined, in_loop, ind)          # docstring
+        if isinstance(st, ast.ImportFrom):
+            # a function-level `from M import N`: accepted when configured (`local_imports=`: name → (module, level));
+            # the names it binds are only used through configured `calls` / `dicts` paths (anything else is an unknown
+            # name), and importing an rtflite module that is already loaded has no other effect
+            ok = self.cfg.get("local_imports") or {}
+            if all(a.asname is None and ok.get(a.name) == (st.module, st.level) for a in st.names):
+                return self.block(rest, defined, in_loop, ind)
+            raise Untranslatable(f"statement {ast.unparse(st)}")
+        # ---- `x = S.join(E for … )` / `return S.join(E for …)` with a constant separator S (the whole right-hand
+        # side): the items are produced first, in order, into a hidden local list, then joined
+        if isinstance(st, (ast.Return, ast.Assign)) and isinstance(st.value, ast.Call) and \
+                isinstance(st.value.func, ast.Attribute) and st.value.func.attr == "join" and \
+                isinstance(st.value.func.value, ast.Constant) and len(st.value.args) == 1 and \
+                not st.value.keywords and isinstance(st.value.args[0], (ast.GeneratorExp, ast.ListComp)):
+            gen = st.value.args[0]
+            self.fresh_join = getattr(self, "fresh_join", 0) + 1
+            name = f"<join {self.fresh_join}>"
+            first = ast.Assign(targets=[ast.Name(id=name, ctx=ast.Store())],
+                               value=ast.ListComp(elt=gen.elt, generators=gen.generators), lineno=st.lineno)
+            call = ast.Call(func=st.value.func, args=[ast.Name(id=name, ctx=ast.Load())], keywords=[])
+            second = ast.Return(value=call) if isinstance(st, ast.Return) else \
+                ast.Assign(targets=st.targets, value=call, lineno=st.lineno)
+            return self.block([ast.fix_missing_locations(first), ast.fix_missing_locations(second)] + rest,
+                              defined, in_loop, ind)
         # ---- list comprehension `[E for v in xs]` / `[x := E for v in xs]` (returned or assigned): the loop
         # `lc = []; for v in xs: (x = E;) lc.append(E or x)`.  The comprehension's loop variable is local to it (it is
         # a loop variable here too); a walrus target is a variable of the enclosing function (PEP 572).
@@ -1196,6 +1399,13 @@ class Fn:
                 b, d2, kind = self.narrowed(test, lambda: self.block(orelse + rest, defined, in_loop, ind + "    "),
                                             "else")
                 return pre + test.wrap(a, b, ind, self.DO), d2, kind
+            if orelse and always_leaves(orelse) and not always_leaves(body):
+                # every path through the ELSE branch returns / raises: what follows continues the body
+                a, d2, kind = self.narrowed(test, lambda: self.block(body + rest, defined, in_loop, ind + "    "))
+                b, _, kb = self.narrowed(test, lambda: self.block(orelse, defined, in_loop, ind + "    "), "else")
+                if kb != "return" or (kind != "return" and not in_loop):
+                    raise Untranslatable("a path reaches the end of the function without a return")
+                return pre + test.wrap(a, b, ind, self.DO), d2, kind
             a, da, ka = self.narrowed(test, lambda: self.block(body, defined, in_loop, ind + "    "))
             if ka == "return":       # every path through the body returns / raises: what follows is the else branch
                 b, d2, kind = self.narrowed(test, lambda: self.block(orelse + rest, defined, in_loop, ind + "    "),
@@ -1216,6 +1426,7 @@ class Fn:
             n = self.fresh
             x = f"x{n}"
             saved = dict(self.bound)
+            after_loop = None
             if isinstance(it, ast.Call) and isinstance(it.func, ast.Name) and it.func.id == "enumerate" and \
                     len(it.args) == 1 and isinstance(st.target, ast.Tuple) and len(st.target.elts) == 2:
                 xs, txs = self.expr(it.args[0], defined)
@@ -1227,6 +1438,28 @@ class Fn:
                 self.bound[v] = (f"{x}.1", elt)
                 xty = f"{lean_type(elt)} × Nat"
                 xs = f"{xs}.zipIdx"
+            elif isinstance(it, ast.Call) and isinstance(it.func, ast.Name) and it.func.id == "zip" and \
+                    len(it.args) == 2 and isinstance(st.target, ast.Tuple) and len(st.target.elts) == 2 and \
+                    all(isinstance(t, ast.Name) for t in st.target.elts) and \
+                    all(k.arg == "strict" and isinstance(k.value, ast.Constant) and isinstance(k.value.value, bool)
+                        for k in it.keywords) and len(it.keywords) <= 1:
+                # for a, b in zip(xs, ys[, strict=True]): the pairs of the common prefix, in order; with strict=True a
+                # ValueError AFTER the last pair when the lengths differ (raised when zip is asked for the next pair)
+                xs1, t1 = self.expr(it.args[0], defined)
+                xs2, t2 = self.expr(it.args[1], defined)
+                e1, e2 = t_arg(t1, "List"), t_arg(t2, "List")
+                if e1 is None or e2 is None:
+                    raise Untranslatable(f"zip over {t1}, {t2}")
+                zip_strict = bool(it.keywords and it.keywords[0].value.value)
+                if zip_strict and not self.M:
+                    raise Untranslatable("zip(strict=True) may raise, and the function is not translated with exceptions")
+                a, b = (t.id for t in st.target.elts)
+                self.bound[a] = (f"{x}.1", e1)
+                self.bound[b] = (f"{x}.2", e2)
+                xty = f"{t_paren(lean_type(e1))} × {t_paren(lean_type(e2))}"
+                xs = f"({xs1}.zip {xs2})"
+                if zip_strict:
+                    after_loop = f"if {xs1}.length ≠ {xs2}.length then throw Exc.ValueError"
             elif isinstance(st.target, ast.Name):
                 xs, txs = self.expr(it, defined)
                 if txs == "Str":
@@ -1260,7 +1493,8 @@ class Fn:
             self.invalidate(stored_names(st.body))
             term, d2, kind = self.block(rest, defined, in_loop, ind)
             if self.M:
-                return f"{pre}{ind}let s ← {xs}.foldlM (loop{n} {args}) s\n{term}", d2, kind
+                chk = f"{ind}{after_loop}\n" if after_loop else ""
+                return f"{pre}{ind}let s ← {xs}.foldlM (loop{n} {args}) s\n{chk}{term}", d2, kind
             return f"{ind}let s := {xs}.foldl (loop{n} {args}) s\n{term}", d2, kind
         if isinstance(st, ast.Return) and not in_loop:
             if rest:
@@ -1388,6 +1622,16 @@ EXC_CLASSES = ("IndexError", "KeyError", "ZeroDivisionError", "ValueError", "Typ
                "ColorValidationError")
 # the only subclass relation among them (rtflite's own class; checked against the imported class, `exceptions=`)
 EXC_SUBCLASSES = {"ValueError": ["ColorValidationError"]}
+
+
+def always_leaves(stmts) -> bool:
+    """syntactically: every path through the statements ends in `return` / `raise`"""
+    if not stmts:
+        return False
+    last = stmts[-1]
+    if isinstance(last, (ast.Return, ast.Raise)):
+        return True
+    return isinstance(last, ast.If) and always_leaves(last.body) and always_leaves(last.orelse)
 
 
 def stored_names(stmts) -> set:
@@ -1551,10 +1795,10 @@ def translate(cfg) -> str:
         stmts = stmts + [ast.Return(value=None)]           # falling off the end
     fn = Fn(cfg, node)
     fn.block(list(stmts), set(), False, "  ")
-    seed = {k: v for k, v in fn.vars.items() if not k.startswith("out_")}
+    seed = {k: v for k, v in fn.vars.items() if not k.startswith("out:")}
     fn = Fn(cfg, node, seed_vars=seed)            # second pass with the variable types of the first
     body, _, kind = fn.block(list(stmts), set(), False, "  ")
-    if {k: v for k, v in fn.vars.items() if not k.startswith("out_")} != seed:
+    if {k: v for k, v in fn.vars.items() if not k.startswith("out:")} != seed:
         raise Untranslatable("the types of the local variables do not settle")
     if kind != "return":
         raise Untranslatable("a path reaches the end of the function without a return")
@@ -1600,7 +1844,7 @@ def translate(cfg) -> str:
         lines.append(f"  let s := {{ s with {fn.fld(pname)} := {pname} }}")
     lines.append(body)
     lines += ["", f"end Generated.Py.{cfg['name']}", ""]
-    names = "\n".join(f"  {fn.fld(v)} = {v} : {t}" for v, t in fn.vars.items() if not v.startswith("out_"))
+    names = "\n".join(f"  {fn.fld(v)} = {v} : {t}" for v, t in fn.vars.items() if not v.startswith("out:"))
     SIDE[cfg["name"]] = (f"{cfg['cls']}.{cfg['func']} ({cfg['file']}) as translated into Generated/Py{cfg['name']}.lean\n\n"
                          f"locals:\n{names or '  (none)'}\n\nsource:\n{textwrap.indent(ast.unparse(shown), '  ')}\n")
     return "\n".join(lines)
@@ -1631,6 +1875,14 @@ def pyDiv (a b : Rat) : Except Exc Rat :=
 
 /-- `int(x)` of a float (an exact rational here): truncation toward zero -/
 def pyInt (x : Rat) : Int := if 0 ≤ x then x.floor else -((-x).floor)
+
+/-- insertion into a strictly increasing list of code points (an element already there is not inserted again) -/
+def insertCp (c : Nat) : List Nat → List Nat
+  | [] => [c]
+  | d :: ds => if c < d then c :: d :: ds else if c = d then d :: ds else d :: insertCp c ds
+
+/-- `sorted(set(s))` / `sorted(list(set(s)))` on a str: its distinct characters in increasing code-point order -/
+def pySortedSet (s : List Nat) : List Nat := s.foldr insertCp []
 
 /-- `xs[i]` on a list: `-len ≤ i < 0` counts from the end, outside `-len ≤ i < len` raises `IndexError` -/
 def pyIndex {α : Type} (xs : List α) (i : Int) : Except Exc α :=
